@@ -263,6 +263,15 @@ def composition_jobs(leaf_contracts):
              '__CPROVER_requires(G_AG.checkers == 0 || LINES[%s][alg_lsb(G_AG.checkers)] == G_AG.seg)\n' % KSQ +
              '__CPROVER_assigns(g_cnt, __CPROVER_object_whole(PINS))\n'
              '__CPROVER_ensures(g_cnt == __CPROVER_old(g_cnt) + spec_alg_core_pos($1, %d, G_M))\n' % side)
+        lc = {}
+        if COMPOSE_LOOPC:
+            for i, (var, k) in enumerate((('not_pinned_knights', 2), ('not_pinned_bishops', 3), ('not_pinned_rooks', 4), ('not_pinned_queens', 5))):
+                lc[(fn, i + 1)] = ['__CPROVER_assigns(%s, list, g_cnt)' % var,
+                                   '__CPROVER_loop_invariant((%s & ~__CPROVER_loop_entry(%s)) == 0)' % (var, var),
+                                   '__CPROVER_loop_invariant(__CPROVER_same_object(list, g_lo) && __CPROVER_POINTER_OFFSET(list) >= __CPROVER_POINTER_OFFSET(__CPROVER_loop_entry(list)) && '
+                                   '__CPROVER_POINTER_OFFSET(list) <= __CPROVER_POINTER_OFFSET(__CPROVER_loop_entry(list)) + 112 * __builtin_popcountll(__CPROVER_loop_entry(%s) & ~%s))' % (var, var),
+                                   '__CPROVER_loop_invariant(g_cnt == __CPROVER_loop_entry(g_cnt) + (((((__CPROVER_loop_entry(%s) & ~%s) >> %s) & 1) && %s && (((G_AG.att[%d] & target) >> %s) & 1)) ? 1 : 0))' % (var, var, GF, PLAIN, k, GT),
+                                   '__CPROVER_decreases(%s)' % var]
         for ci, cname in enumerate(CCLASS):
             h = ND + ('AlgGhost nondet_AlgGhost(void);\n' + ALGPOS +
                       'void h_gl(void) {\n'
@@ -275,7 +284,7 @@ def composition_jobs(leaf_contracts):
                       '  __CPROVER_assume(compose_class(&P, %d, G_M) == %d);   /* case split on the ghost move: %s */\n' % (side, ci, cname) +
                       '  %s(&P, BUF);' % fn + CANARY + '}\n')
             stubs = [k for k in leafs if '__CPROVER_assigns()' not in cs[k]]     # leaves that write (ghost counter, pin records): stub form, see tools/cxx2c.py stub_text
-            out.append(Job('compose/generate_legal_moves_%s/%s' % (sn, cname), MTUS, [fn], h, 'h_gl', contracts=dict(cs, **{fn: c}), nobody=leafs, enforce=fn, replace=leafs, stubs=stubs,
+            out.append(Job('compose/generate_legal_moves_%s/%s' % (sn, cname), MTUS, [fn], h, 'h_gl', contracts=dict(cs, **{fn: c}), nobody=leafs, enforce=fn, replace=leafs, stubs=stubs, loopc=lc, loop_contracts=bool(lc), expect=(['loop_invariant_step'] if lc else []),
                            hooks=HOOKS, spec=['poswf_decl.h', 'movegen.h'], post_spec=['poswf.h'], pre_text=COMPOSE_PRE, force_globals=['PINS'],
                            unwindset=loops_unwind([(fn, 11)]), timeout=3000, canary=(cname == 'king'),
                            route='closed-by-complete-unwinding(11): at most 10 pieces of a kind (piece-list capacity, precondition), at most 8 pins',
@@ -302,6 +311,8 @@ def composition_jobs(leaf_contracts):
     return out
 
 
+import os
+COMPOSE_LOOPC = bool(os.environ.get('VERIF_C01_LOOPC'))
 CCLASS = ['castling', 'king', 'pawn', 'knight', 'bishop', 'rook', 'queen', 'other']
 COMPOSE_PRE = EMIT_PRE + ('#define HAVE_G_AG 1\nuint32_t G_F1, G_F2, G_F3; AlgGhost G_AG; struct Position W_P; uint32_t W_m;\n'
                           'static inline uint32_t sp_kind8(uint32_t pc) { return pc == 0 ? 0u : (pc - 1u) % 6u + 1u; }\n'
